@@ -220,7 +220,7 @@ Theorem oracle_conc_model m cp p0 hc0 c0 pre limits progs sched stops post :
   let obs := run_conc m (init cp p0 hc0 c0) pre limits progs sched stops post in
   forallb finished (snd (fst obs)) = true ->
   (let '(h3, t3) := last_ht p0 (fst (fst (fst obs)) ++ snd obs) in h3 = t3) ->
-  holds_conc cp p0 pre progs post obs = true.
+  holds_conc_core cp p0 pre progs post obs = true.
 Proof.
   intros (Dseq & Dprogs & Dnd & Dpost & Dmoves & Dwin). cbn zeta. unfold run_conc.
   destruct (run m (init cp p0 hc0 c0) pre) as [R1 o1] eqn:E1.
@@ -330,7 +330,7 @@ Proof.
   { unfold cons_result, delivered. rewrite Hcd, app_nil_r. f_equal. rewrite map_map. cbn [snd].
     induction (c_res (g_cons cfg2)) as [| r l IH]; cbn [map concat]; [reflexivity |]. rewrite map_app. f_equal. exact IH. }
   (* putting the oracle together *)
-  unfold holds_conc. rewrite Hht1. fold cl. unfold results.
+  unfold holds_conc_core. rewrite Hht1. fold cl. unfold results.
   unfold delivered_by. rewrite Hdeliv, Hcm, C1, Hht3.
   rewrite Hpos. rewrite Hdone. cbn [andb].
   assert (Hcount : fold_left Z.add (map (fun r => match r with TProd l => count_ok l | _ => -1000000 end) (map prod_result (g_prods cfg2))) 0
